@@ -110,6 +110,20 @@ def run(ctx, rep):
                 cut_of, pos = v.args[0].args[2][0], v.args[0].args[2][1].args[4][0]
             elif v.op == "call" and v.args[0] == "ops::Index::index" and v.args[2][1].op == "agg" and v.args[2][1].args[1] == "ops::RangeTo":
                 cut_of, pos = v.args[2][0], v.args[2][1].args[4][0]
+            if cut_of is None and v.op == "call" and v.args[0] == "ffi::CStr::to_bytes":
+                # CStr::from_bytes_until_nul(tail)?.to_bytes(): core's statement of the same rule - the bytes before the first NUL of the
+                # tail, an error when there is none (to_bytes_with_nul would include the terminator and is not accepted)
+                c = v.args[2][0]
+                c = c.args[0] if c.op == "refval" else c
+                if c.op == "payload" and c.args[1] == "Ok" and c.args[0].op == "call" and c.args[0].args[0] == "ffi::CStr::from_bytes_until_nul":
+                    src = c.args[0].args[2][0]
+                    src = src.args[0] if src.op == "refval" else src
+                    rep.require(src is tail, "strtab", "get_raw:tail", w, "the string starts at the unmodified offset: data.get(offset..)",
+                                "get_raw searches %s, expected the tail data.get(offset..) with the caller's offset" % pp(src)[:200])
+                    rep.ok("strtab", "get_raw:search", w, "CStr::from_bytes_until_nul: cut at the first NUL of the tail")
+                    rep.ok("strtab", "get_raw:predicate", w, "CStr::from_bytes_until_nul searches for byte 0")
+                    cstr_call = c.args[0]
+                    continue
             if cut_of is None:
                 rep.bad("strtab", "get_raw:value", w, "UNRECOGNISED: get_raw returns %s (not a prefix cut of the tail at the search result)" % pp(v)[:240])
                 continue
@@ -139,6 +153,10 @@ def run(ctx, rep):
             if "StringTableMissingNul" in txt:
                 kinds.add("nul")
                 srch = [c for c in calls if c.declared_norm in ("iter::Iterator::position",)]
+                cs_ = [c for c in calls if c.declared_norm == "ffi::CStr::from_bytes_until_nul"]
+                if not srch and cs_ and ("var", cs_[0].result, "Err") in st.facts:
+                    rep.ok("strtab", "get_raw:missing-nul", w, "StringTableMissingNul exactly when CStr::from_bytes_until_nul finds no NUL")
+                    continue
                 rep.require(bool(srch) and ("var", srch[0].result, "None") in st.facts, "strtab", "get_raw:missing-nul", w,
                             "StringTableMissingNul exactly when the search finds no NUL", "StringTableMissingNul is returned on a path where the search result is not None")
             elif "BadOffset" in txt:
